@@ -60,7 +60,8 @@ def V():
 # --------------------------------------------------------------------------
 def enc_car(case):
     coll = case["coll"]
-    out = [1, case["op"], 0 if coll is None else 1, 0 if coll is None else len(coll)]
+    is_int = case.get("dtype", "f64") in ("i64", "i16")
+    out = [1, case["op"], 0 if coll is None else (2 if is_int else 1), 0 if coll is None else len(coll)]
     out += [] if coll is None else list(coll)
     out += [case["nc"], case["ns"], case["xd"]] + [v for r in case["x"] for v in r]
     return out
@@ -86,13 +87,36 @@ def xarr(case):
 # --------------------------------------------------------------------------
 # implementation runners
 # --------------------------------------------------------------------------
-def impl_car(case):
+def car_inputs(case):
+    """the array and the collection in the representation the case asks for:
+    dtype f64 / f32 / i64 / i16 (integer dtypes only when the values are integers), layout C / F /
+    strided view, collection as ndarray / list / float ndarray"""
     x = xarr(case)
-    coll = None if case["coll"] is None else np.array(case["coll"], dtype=np.int64)
+    dt = case.get("dtype", "f64")
+    if dt != "f64":
+        x = x.astype({"f32": np.float32, "i64": np.int64, "i16": np.int16}[dt])
+    lay = case.get("layout", "C")
+    if lay == "F":
+        x = np.asfortranarray(x)
+    elif lay == "view":
+        big = np.zeros((x.shape[0] * 2, x.shape[1] * 2 + 1), dtype=x.dtype)
+        big[::2, 1::2] = x
+        x = big[::2, 1::2]
+    coll = case["coll"]
+    if coll is not None:
+        rep = case.get("coll_rep", "array")
+        coll = list(coll) if rep == "list" else np.array(coll, dtype=np.float64 if rep == "float" else np.int64)
+    return x, coll
+
+
+def impl_car(case):
+    x, coll = car_inputs(case)
+    if case.get("layout") != "view":
+        x = x.copy()
     with warnings.catch_warnings():
         warnings.simplefilter("ignore")
         try:
-            return np.asarray(V().car(x.copy(), collection=coll, operator=OPS[case["op"]]), dtype=float)
+            return np.asarray(V().car(x, collection=coll, operator=OPS[case["op"]]), dtype=float)
         except IndexError:
             return "IndexError"
 
@@ -112,6 +136,8 @@ def oracle_car(case, y):
     stat = np.median if case["op"] == 0 else np.mean
     name = OPS[case["op"]]
     scale = max(1.0, float(np.max(np.abs(x))) if x.size else 1.0)
+    if case.get("dtype") == "f32":
+        scale *= 1e3          # float32 path: 1e-6 relative
     for c in np.unique(labels):
         sel = labels == c
         if x.shape[1] and np.max(np.abs(stat(y[sel], axis=0))) > TOL * scale:
@@ -120,7 +146,7 @@ def oracle_car(case, y):
     if coll is not None:
         for c in np.unique(labels):
             sel = labels == c
-            ref = V().car(x[sel].copy(), collection=None, operator=name)
+            ref = np.asarray(V().car(car_inputs(case)[0][sel].copy(), collection=None, operator=name), dtype=float)
             if np.max(np.abs(ref - y[sel]), initial=0) > TOL * scale:
                 bad.append("car with groups differs from the per-group call with the same operator")
                 break
@@ -140,6 +166,8 @@ def agc_window(nswin):
 
 def impl_agc(case):
     x = xarr(case)
+    if case.get("dtype", "f64") != "f64":
+        x = x.astype({"f32": np.float32, "i64": np.int64}[case["dtype"]])
     wl = case["wl"]
     si = case["si"]
     out, gain = V().agc(x.copy(), wl=wl, si=si, epsilon=case["en"] / case["ed"])
@@ -158,7 +186,7 @@ def oracle_agc(case, out, gain):
         else:
             if not np.all(np.isfinite(out[i])):
                 continue        # zero gain sample (epsilon = 0): outside the stated domain
-            if np.max(np.abs(out[i] * gain[i] - x[i])) > TOL * max(1.0, np.max(np.abs(x[i]))):
+            if np.max(np.abs(out[i] * gain[i] - x[i])) > (1e-5 if case.get("dtype") == "f32" else TOL) * max(1.0, np.max(np.abs(x[i]))):
                 bad.append("agc: output * gain differs from the input")
     return bad[:1]
 
@@ -317,12 +345,59 @@ def header_for(gen):
     return neuropixel.trace_header(version="NPultra"), 1      # NPultra: NP1 ADC table
 
 
-def destripe_call(case, x, labels):
+class StageTracer:
+    """Records the order in which destripe hands the data to its stages, and how many rows each
+    stage receives: 1 scipy.signal.sosfiltfilt (outside the spatial filter), 2 fourier.fshift,
+    3 interpolate_bad_channels, 4 kfilt / car.  Works by temporarily replacing the names through
+    which voltage.py reaches them; a stage reached another way is simply not recorded."""
+
+    def __init__(self):
+        self.trace = []
+        self.depth = 0
+
+    def _wrap(self, code, fn, argpos=0, argname=None, spatial=False):
+        def w(*a, **k):
+            if self.depth == 0:
+                arr = k[argname] if (argname in k) else a[argpos]
+                self.trace.append((code, int(np.shape(arr)[0])))
+            if spatial:
+                self.depth += 1
+            try:
+                return fn(*a, **k)
+            finally:
+                if spatial:
+                    self.depth -= 1
+        return w
+
+    def __enter__(self):
+        v = V()
+        self.saved = [(scipy.signal, "sosfiltfilt", scipy.signal.sosfiltfilt),
+                      (v.fourier, "fshift", v.fourier.fshift),
+                      (v, "interpolate_bad_channels", v.interpolate_bad_channels),
+                      (v, "kfilt", v.kfilt), (v, "car", v.car)]
+        scipy.signal.sosfiltfilt = self._wrap(1, scipy.signal.sosfiltfilt, 1, "x")
+        v.fourier.fshift = self._wrap(2, v.fourier.fshift, 0, "w")
+        v.interpolate_bad_channels = self._wrap(3, v.interpolate_bad_channels, 0, "data")
+        v.kfilt = self._wrap(4, v.kfilt, 0, "x", spatial=True)
+        v.car = self._wrap(4, v.car, 0, "x", spatial=True)
+        return self
+
+    def __exit__(self, *a):
+        for obj, name, fn in self.saved:
+            setattr(obj, name, fn)
+
+
+def destripe_call(case, x, labels, tracer=None):
     v = V()
     h, nv = header_for(case["gen"])
+    if case.get("no_version"):
+        nv = None
     lab = None if labels is None else np.array(labels)
     with warnings.catch_warnings():
         warnings.simplefilter("ignore")
+        if tracer is not None:
+            with tracer:
+                return destripe_call(case, x, labels)
         if case["lfp"]:
             return v.destripe_lfp(x.copy(), case["fs"], h=h, channel_labels=lab, k_filter=case["k_filter"])
         return v.destripe(x.copy(), case["fs"], h=h, neuropixel_version=nv, channel_labels=lab,
@@ -343,9 +418,12 @@ def destripe_expected(case, x, labels, inside):
     kk = {"ntr_pad": 60, "ntr_tap": 0, "lagc": lagc, "butter_kwargs": {"N": 3, "Wn": 0.01, "btype": "highpass"}}
     sos = scipy.signal.butter(**bk, output="sos")
     pre = scipy.signal.sosfiltfilt(sos, x)
-    pre = fourier.fshift(pre, h["sample_shift"], axis=1)
+    if not case.get("no_version"):
+        pre = fourier.fshift(pre, h["sample_shift"], axis=1)
     with warnings.catch_warnings():
         warnings.simplefilter("ignore")
+        if labels is None:
+            return pre, (v.kfilt(pre.copy(), **kk) if case["k_filter"] else v.car(pre.copy(), **kk))
         pre = v.interpolate_bad_channels(pre, np.array(labels), h["x"], h["y"])
         exp = pre.copy()
         sub = pre[inside, :]
@@ -488,6 +566,35 @@ def measure(ctx, delays):
                         ctx.fail("stripe over background noise attenuated by only %.1f dB (< 40 dB)" % attn,
                                  {"kind": "measure", "what": "stripe+noise", "config": key},
                                  {"kind": "stripe_attenuation", "band": "lfp" if lfp else "ap", "waveform": "burst+noise"})
+            # stripe with dead / noisy channels to interpolate and channels outside the brain: the repaired
+            # channels must be interpolated from ALIGNED neighbours (interpolation after the re-alignment)
+            if gen in ("NP1", "NP2") and kk is None and not lfp:
+                u = stripe_waveform("burst", fs, lfp, ns, 7)
+                st = np.stack([u(t + s / fs) for s in delays[gen]]) * 200e-6
+                ref = temporal_ref(fs, lfp, st)
+                lab = np.zeros(384, dtype=int)
+                lab[364:] = 3
+                bad = [5, 40, 41, 77, 120, 121, 200, 255, 256, 300, 333, 350]
+                lab[bad] = [1, 2] * 6
+                xin = st.copy()
+                xin[bad[0::2]] = 0                                            # dead channels
+                xin[bad[1::2]] += np.random.default_rng(13).standard_normal((6, ns)) * 1e-3     # noisy channels
+                key = "%s/ap/%s/labels" % (gen, sname)
+                try:
+                    with warnings.catch_warnings():
+                        warnings.simplefilter("ignore")
+                        yl = v.destripe(xin.copy(), fs, h=h, neuropixel_version=nv, k_filter=kf, channel_labels=lab)
+                    ins = np.where(lab != 3)[0]
+                    attl = -db(yl[ins], ref[ins])
+                    res["stripe_attenuation_db"][key] = round(float(attl), 1)
+                    worst_att = min(worst_att, attl)
+                    if attl < 40.0:
+                        ctx.fail("stripe with interpolated bad channels attenuated by only %.1f dB (< 40 dB)" % attl,
+                                 {"kind": "measure", "what": "stripe+labels", "config": key},
+                                 {"kind": "stripe_attenuation", "band": "ap", "waveform": "burst+labels"})
+                except Exception as e:
+                    ctx.fail("destripe raised %r on a stripe with channel labels" % (e,),
+                             {"kind": "measure", "config": key}, {"kind": "exception"})
             if lfp:
                 continue
             # local spike on 3 neighbouring channels, 20 depths
@@ -576,6 +683,15 @@ def gen_car_cases(ctx):
                           "nc": nc, "ns": 3, "xd": 1, "x": [list(row) for _ in range(nc)]})
             cases.append({"kind": "car", "op": op, "coll": [(i * 7) % 3 for i in range(nc)], "nc": nc, "ns": 2,
                           "xd": 2, "x": [[(i * i) % 7 - 3, 5 - i] for i in range(nc)]})
+    # representation variants: dtype, memory layout, collection as list / float array
+    base = list(cases)
+    for i, c in enumerate(base[: (240 if ctx.thorough() else 90)]):
+        v = dict(c)
+        v["layout"] = ["C", "F", "view"][i % 3]
+        v["coll_rep"] = ["array", "list", "float"][(i // 3) % 3]
+        ints = c["xd"] == 1
+        v["dtype"] = ["f32", "i64", "i16", "f64"][i % 4] if ints else ["f32", "f64"][i % 2]
+        cases.append(v)
     # malformed: collection of the wrong length / empty
     for _ in range(30 if ctx.thorough() else 12):
         nc = rng.randint(1, 6)
@@ -611,6 +727,10 @@ def gen_agc_cases(ctx):
         en, ed = rng.choice([(1, 10 ** 8), (1, 10 ** 8), (1, 8), (1, 2), (1, 1), (3, 1)])
         cases.append({"kind": "agc", "wl": wl, "si": si, "p": p, "q": q, "w": w, "wd": wd, "en": en, "ed": ed,
                       "nc": nc, "ns": ns, "xd": xd, "x": x})
+        if i % 5 == 0:
+            cases.append(dict(cases[-1], dtype="f32"))
+        if i % 40 == 7 and xd == 1:
+            cases.append(dict(cases[-1], dtype="i64"))        # integer array: divided in place, truncated
     return cases
 
 
@@ -666,11 +786,18 @@ def gen_destripe_cases(ctx):
         cases.append({"kind": "destripe", "gen": gens[i % 4], "lfp": lfp, "fs": 2500 if lfp else 30000,
                       "k_filter": bool(i % 2 == 0), "labels": gen_labels(rng, kind), "label_kind": kind,
                       "ns": rng.choice([256, 300, 401]), "seed": rng.randrange(10 ** 6)})
+    # without labels / without a probe version (no re-alignment)
+    for i, (lab, nov, lfp) in enumerate([(None, False, False), (None, True, False), ("mixed", True, False),
+                                         (None, False, True), ("bad_only", False, False), ("top", True, False)]):
+        cases.append({"kind": "destripe", "gen": gens[i % 4], "lfp": lfp, "fs": 2500 if lfp else 30000,
+                      "k_filter": bool(i % 2 == 1), "labels": None if lab is None else gen_labels(rng, lab),
+                      "label_kind": lab or "no_labels", "no_version": nov,
+                      "ns": rng.choice([256, 300]), "seed": rng.randrange(10 ** 6)})
     return cases
 
 
 # --------------------------------------------------------------------------
-def compare_q(ctx, what, model_out, flats, desc):
+def compare_q(ctx, what, model_out, flats, desc, tol=TOL):
     """model_out = 1 :: (num, den)* ; flats = implementation floats in the same order."""
     if not model_out or model_out[0] != 1:
         ctx.disagree("%s: model returned %s, implementation returned an array" % (what, model_out[:3]), desc)
@@ -680,7 +807,7 @@ def compare_q(ctx, what, model_out, flats, desc):
         ctx.disagree("%s: model has %d values, implementation %d" % (what, len(mv), len(flats)), desc)
         return
     for k, (a, b) in enumerate(zip(flats, mv)):
-        if not (np.isfinite(a) and close(a, b)):
+        if not (np.isfinite(a) and abs(a - b) <= tol * max(1.0, abs(b))):
             ctx.disagree("%s: value %d: implementation %r, model %r" % (what, k, float(a), b), desc)
             return
 
@@ -704,18 +831,41 @@ def run(ctx):
         malformed = case["coll"] is not None and len(case["coll"]) != case["nc"]
         for b in oracle_car(case, y):
             ctx.fail(b, case, {"kind": "car", "operator": OPS[case["op"]],
-                               "grouped": case["coll"] is not None})
+                               "grouped": case["coll"] is not None,
+                               "int_dtype": case.get("dtype", "f64") in ("i64", "i16")})
+        dist["car_" + case.get("dtype", "f64")] = dist.get("car_" + case.get("dtype", "f64"), 0) + 1
         dist["car"] += 1
         dist["car_grouped"] += case["coll"] is not None and not malformed
         dist["car_malformed"] += malformed
         if case["coll"] is not None and not malformed and len(set(case["coll"])) > 1 and case["op"] < 2:
             nontrivial.add(json.dumps(case, sort_keys=True))
         inputs.append(enc_car(case))
+        if (not isinstance(y, str)) and case["coll"] is not None and case.get("dtype", "f64") in ("i64", "i16"):
+            # F-C05-e region: the implementation must agree with the faithful (truncating) model or with the
+            # exact model (defect repaired); the second encoding is evaluated as an extra input
+            alt = dict(case, dtype="f64")
+            holder = {}
+            checks.append(lambda m, holder=holder: holder.__setitem__("int", m))
+            inputs.append(enc_car(alt))
+
+            def both(m, case=case, y=y, holder=holder):
+                for cand in (holder["int"], m):
+                    n0 = len(ctx.disagreements)
+                    compare_q(ctx, "car", cand, list(y.ravel()), case)
+                    if len(ctx.disagreements) == n0:
+                        return
+                    del ctx.disagreements[n0:]
+                ctx.disagree("car on an integer array with groups matches neither the truncating nor the exact model",
+                             case)
+            checks.append(both)
+            continue
         if isinstance(y, str):
             checks.append(lambda m, case=case: m == [0] or ctx.disagree(
                 "car: implementation raised IndexError, model returned %s" % m[:3], case))
         else:
-            checks.append(lambda m, case=case, y=y: compare_q(ctx, "car", m, list(y.ravel()), case))
+            checks.append(lambda m, case=case, y=y: compare_q(
+                ctx, "car", m, list(y.ravel()), case,
+                tol=1e-6 * max(1.0, max(abs(v) for r in case["x"] for v in r)) if case.get("dtype") == "f32" else TOL))
         if len(samples) < 2 and case["coll"] is not None and not isinstance(y, str):
             samples.append({"call": "car", "operator": OPS[case["op"]], "collection": case["coll"],
                             "x": xarr(case).tolist(), "out": y.tolist()})
@@ -730,7 +880,10 @@ def run(ctx):
             ctx.fail("agc raised %r" % (e,), case, {"kind": "exception"})
             continue
         for b in oracle_agc(case, out, gain):
-            ctx.fail(b, case, {"kind": "agc"})
+            ctx.fail(b, case, {"kind": "agc", "int_dtype": case.get("dtype") == "i64"})
+        if case.get("dtype") == "i64":
+            dist["agc_int_not_compared"] = dist.get("agc_int_not_compared", 0) + 1
+            continue
         dist["agc"] += 1
         dist["agc_dead_row"] += any(all(v == 0 for v in r) for r in case["x"])
         if any(any(v != 0 for v in r) for r in case["x"]) and case["ns"] > 1:
@@ -741,7 +894,8 @@ def run(ctx):
             if m == [2]:
                 dist["agc_div0_skipped"] += 1
                 return
-            compare_q(ctx, "agc (output, gain)", m, list(out.ravel()) + list(gain.ravel()), case)
+            compare_q(ctx, "agc (output, gain)", m, list(out.ravel()) + list(gain.ravel()), case,
+                      tol=1e-5 if case.get("dtype") == "f32" else TOL)
         checks.append(chk)
         if len(samples) < 4 and case["nc"] <= 2 and case["ns"] <= 4:
             samples.append({"call": "agc", "wl": case["wl"], "si": case["si"], "epsilon": "%d/%d" % (case["en"], case["ed"]),
@@ -769,6 +923,33 @@ def run(ctx):
             samples.append({"call": case["fn"] + " with collection", "case": {k: v for k, v in case.items() if k != "coll"},
                             "forwarded": obs[:24]})
 
+    # ---- kfilt body: mirrored padding = filtering the explicitly padded block and cropping
+    dist["kfilt_padding"] = 0
+    rgp = np.random.default_rng(ctx.rng.randrange(10 ** 6))
+    for nx, pad, lagc in ((20, 3, None), (16, 5, 4), (30, 7, 300), (14, 1, None), (25, 12, 6), (40, 60, None),
+                          (60, 60, None), (61, 60, 300), (50, 60, 300)):
+        xk = rgp.standard_normal((nx, 12))
+        case = {"kind": "kfilt_padding", "nx": nx, "pad": pad, "lagc": lagc}
+        try:
+            with warnings.catch_warnings():
+                warnings.simplefilter("ignore")
+                a = V().kfilt(xk.copy(), ntr_pad=pad, ntr_tap=0, lagc=lagc)
+                padded = np.r_[np.flipud(xk[:pad]), xk, np.flipud(xk[-pad:])]
+                b = V().kfilt(padded.copy(), ntr_pad=0, ntr_tap=0, lagc=lagc)
+                npad = min(pad, nx)
+                b = b[npad:npad + nx]
+        except Exception as e:
+            ctx.fail("kfilt with padding raised %r" % (e,), case,
+                     {"kind": "kfilt_pad_gt_nx" if pad > nx else "exception"})
+            continue
+        dist["kfilt_padding"] += 1
+        if a.shape != xk.shape:
+            ctx.fail("kfilt returned shape %s for an input of shape %s (ntr_pad=%d)" % (a.shape, xk.shape, pad), case,
+                     {"kind": "kfilt_pad_gt_nx" if pad > nx else "kfilt_shape"})
+        elif a.shape != b.shape or np.max(np.abs(a - b)) > TOL * max(1.0, np.max(np.abs(b))):
+            ctx.disagree("kfilt(ntr_pad=p) differs from filtering the block padded with p mirrored channels on each "
+                         "side and cropping (the model's pad / filter / unpad structure)", case)
+
     # ---- adc tables
     for ver in (1, 2, 24, 0):
         for nc in (1, 2, 12, 13, 24, 25, 32, 33, 383, 384, 385):
@@ -782,30 +963,49 @@ def run(ctx):
             checks.append(lambda m, obs=obs, ver=ver, nc=nc: m == obs or ctx.disagree(
                 "adc_shifts table differs from the model", {"kind": "adc", "ver": ver, "nc": nc}))
 
-    # ---- destripe label vectors -> the model's inside / outside index vectors
+    # ---- destripe: label vectors -> the model's inside / outside index vectors and stage trace
     dcases = gen_destripe_cases(ctx)
     for case in dcases:
-        inputs.append([3, len(case["labels"])] + case["labels"])
+        lab = case["labels"]
+        inputs.append([3, 0] if lab is None else [3, len(lab)] + lab)
+        checks.append(None)
+        inputs.append([8, 384, 0 if case.get("no_version") else 1, 0 if lab is None else 1] + (lab or []))
         checks.append(None)
     model = ex.run_many(inputs, nproc=4)
     for m, chk in zip(model, checks):
         if chk is not None:
             chk(m)
-    for case, m in zip(dcases, model[len(model) - len(dcases):]):
+    dmodel = model[len(model) - 2 * len(dcases):]
+    dist["destripe_trace_compared"] = 0
+    dist["destripe_trace_unobserved"] = 0
+    for k, case in enumerate(dcases):
+        m, mtrace = dmodel[2 * k], dmodel[2 * k + 1]
         n_in = m[0]
         inside = m[1:1 + n_in]
         outside = m[2 + n_in:]
-        desc = {k: v for k, v in case.items()}
+        if case["labels"] is None:
+            inside, outside = list(range(384)), []
+        desc = {k2: v2 for k2, v2 in case.items()}
         x = np.random.default_rng(case["seed"]).standard_normal((384, case["ns"])) * 1e-5
+        tracer = StageTracer()
         try:
-            y = destripe_call(case, x, case["labels"])
+            y = destripe_call(case, x, case["labels"], tracer=tracer)
             pre, exp = destripe_expected(case, x, case["labels"], inside)
         except Exception as e:
-            ctx.fail("destripe with channel labels raised %r" % (e,), desc, {"kind": "exception"})
+            ctx.fail("destripe raised %r" % (e,), desc, {"kind": "exception"})
             continue
         dist["destripe_labels"] += 1
-        if outside:
+        if outside or case["labels"] is None or case.get("no_version"):
             nontrivial.add(json.dumps(desc, sort_keys=True))
+        # the order of the stages and the rows each receives
+        mt = [(mtrace[i], mtrace[i + 1]) for i in range(0, len(mtrace), 2)]
+        if sorted(c for c, _ in tracer.trace) == sorted(c for c, _ in mt):
+            dist["destripe_trace_compared"] += 1
+            if tracer.trace != mt:
+                ctx.disagree("destripe stage trace (stage, rows): implementation %s, model %s" % (tracer.trace, mt),
+                             desc)
+        else:
+            dist["destripe_trace_unobserved"] += 1
         scale = float(np.max(np.abs(pre)))
         if outside and np.max(np.abs(y[outside] - pre[outside])) > TOL * scale:
             ctx.fail("channels labelled outside the brain are not returned as produced by the temporal filter, ADC "
@@ -813,8 +1013,8 @@ def run(ctx):
                      {"kind": "destripe_labels"})
         elif np.max(np.abs(y - exp)) > TOL * scale:
             ctx.fail("destripe output differs from: temporal filter, ADC re-alignment, interpolation, then the spatial "
-                     "filter applied to exactly the channels with label != 3 (model's index vector)", desc,
-                     {"kind": "destripe_labels"})
+                     "filter applied to exactly the channels with label != 3 (model's index vector), in this order",
+                     desc, {"kind": "destripe_labels"})
         # label-3 rows are not inputs of the spatial filter: change them, nothing else moves
         if outside and not any(l in (1, 2) for l in case["labels"]):
             x2 = x.copy()
@@ -826,7 +1026,25 @@ def run(ctx):
         if len(samples) < 8 and outside:
             samples.append({"call": "destripe_lfp" if case["lfp"] else "destripe", "probe": case["gen"],
                             "k_filter": case["k_filter"], "n_outside": len(outside), "outside_first": outside[:5],
-                            "max_abs_out": float(np.max(np.abs(y)))})
+                            "stage_trace": tracer.trace, "max_abs_out": float(np.max(np.abs(y)))})
+
+    # ---- destripe (default k-filter, ntr_pad=60) with 50 / 60 / 61 channels inside the brain
+    for n_inside in (50, 60, 61):
+        lab = np.zeros(384, dtype=int)
+        lab[n_inside:] = 3
+        case = {"kind": "destripe_few_inside", "n_inside": n_inside}
+        h, nv = header_for("NP1")
+        xx = np.random.default_rng(n_inside).standard_normal((384, 256)) * 1e-5
+        try:
+            with warnings.catch_warnings():
+                warnings.simplefilter("ignore")
+                yy = V().destripe(xx.copy(), 30000, h=h, neuropixel_version=1, channel_labels=lab)
+            if yy.shape != xx.shape:
+                ctx.fail("destripe changed the shape", case, {"kind": "kfilt_pad_gt_nx" if n_inside < 60 else "shape"})
+        except Exception as e:
+            ctx.fail("destripe raised %r with %d channels inside the brain" % (e, n_inside), case,
+                     {"kind": "kfilt_pad_gt_nx" if n_inside < 60 else "exception"})
+        dist["destripe_few_inside"] = dist.get("destripe_few_inside", 0) + 1
 
     # ---- kernel re-evaluation of a sample of the extracted model's outputs
     idx = list(range(len(inputs)))
@@ -838,6 +1056,36 @@ def run(ctx):
         ctx.disagree("kernel-evaluated model and extracted model differ", {"kind": "kernel", "input": inputs[i][:60]})
     ctx.coverage["model_evaluations_extracted"] = len(inputs)
     ctx.coverage["model_evaluations_kernel"] = len(pick)
+
+    # ---- what happens to the caller's array (observed and reported; no C05 clause depends on it)
+    obs = {}
+    try:
+        v = V()
+        rgo = np.random.default_rng(5)
+        for name, call in (
+                ("agc", lambda a: v.agc(a, wl=2, si=1.0)),
+                ("kfilt_lagc_no_collection", lambda a: v.kfilt(a, lagc=4)),
+                ("kfilt_lagc_collection", lambda a: v.kfilt(a, lagc=4, collection=np.array([0, 1] * 15))),
+                ("fk_lagc_no_collection", lambda a: v.fk(a, si=0.002, dx=1, vbounds=[2, 4], lagc=0.01)),
+                ("car_collection", lambda a: v.car(a, collection=np.array([0, 1] * 15))),
+                ("destripe", lambda a: v.destripe(np.tile(a, (13, 8))[:384], 30000, neuropixel_version=1))):
+            a = rgo.standard_normal((30, 16))
+            a0 = a.copy()
+            with warnings.catch_warnings():
+                warnings.simplefilter("ignore")
+                r = call(a)
+            r0 = r[0] if isinstance(r, tuple) else r
+            obs[name] = {"argument_modified": bool(not np.array_equal(a, a0)),
+                         "result_aliases_argument": bool(np.shares_memory(r0, a))}
+        ai = np.array([[1, -2, 3], [4, 0, 6]])
+        with warnings.catch_warnings():
+            warnings.simplefilter("ignore")
+            oi, gi = v.agc(ai.copy(), wl=2, si=1.0, epsilon=1 / 8)
+        obs["agc_integer_input"] = {"output_dtype": str(oi.dtype),
+                                    "product_is_input": bool(np.allclose(oi * gi, ai))}
+    except Exception as e:
+        obs["error"] = repr(e)
+    ctx.coverage["observations_argument_mutation"] = obs
 
     # ---- measurements (quantitative clauses)
     try:
@@ -881,7 +1129,7 @@ def replay(ctx, data):
         if isinstance(y, str):
             ok = m == [0]
         else:
-            compare_q(ctx, "car", m, list(y.ravel()), inp)
+            compare_q(ctx, "car", m, list(y.ravel()), inp, tol=1e-3 if inp.get("dtype") == "f32" else TOL)
             ok = len(ctx.disagreements) == n0
         return 1 if (bad or not ok) else 0
     if kind == "agc":
@@ -910,9 +1158,17 @@ def replay(ctx, data):
         print("implementation:", obs[:40], "\nmodel:", m[:40])
         return 1 if obs != m else 0
     if kind == "destripe":
-        m = ex.run_many([[3, len(inp["labels"])] + inp["labels"]], nproc=1)[0]
+        lab = inp["labels"]
+        m, mt = ex.run_many([[3, 0] if lab is None else [3, len(lab)] + lab,
+                             [8, 384, 0 if inp.get("no_version") else 1, 0 if lab is None else 1] + (lab or [])],
+                            nproc=1)
         inside = m[1:1 + m[0]]
         outside = m[2 + m[0]:]
+        if lab is None:
+            inside, outside = list(range(384)), []
+        tr = StageTracer()
+        destripe_call(inp, np.zeros((384, inp["ns"])) + 1e-6, lab, tracer=tr)
+        print("stage trace: implementation", tr.trace, "model", [(mt[i], mt[i + 1]) for i in range(0, len(mt), 2)])
         x = np.random.default_rng(inp["seed"]).standard_normal((384, inp["ns"])) * 1e-5
         y = destripe_call(inp, x, inp["labels"])
         pre, exp = destripe_expected(inp, x, inp["labels"], inside)
@@ -921,6 +1177,27 @@ def replay(ctx, data):
         d_all = float(np.max(np.abs(y - exp)))
         print("outside channels:", outside[:20], "max change on them:", d_out, "max deviation from composition:", d_all)
         return 1 if max(d_out, d_all) > TOL * scale else 0
+    if kind in ("kfilt_padding", "destripe_few_inside"):
+        if kind == "kfilt_padding":
+            xk = np.random.default_rng(0).standard_normal((inp["nx"], 12))
+            try:
+                a = V().kfilt(xk.copy(), ntr_pad=inp["pad"], ntr_tap=0, lagc=inp["lagc"])
+                print("kfilt input shape", xk.shape, "output shape", a.shape)
+                return 1 if a.shape != xk.shape else 0
+            except Exception as e:
+                print("kfilt raised", repr(e))
+                return 1
+        lab = np.zeros(384, dtype=int)
+        lab[inp["n_inside"]:] = 3
+        h, nv = header_for("NP1")
+        try:
+            yy = V().destripe(np.random.default_rng(1).standard_normal((384, 256)) * 1e-5, 30000, h=h,
+                              neuropixel_version=1, channel_labels=lab)
+            print("destripe ok", yy.shape)
+            return 0
+        except Exception as e:
+            print("destripe raised", repr(e))
+            return 1
     if kind == "measure":
         n0 = len(ctx.oracle_failures)
         measure(ctx, model_delays(ex))
